@@ -91,6 +91,12 @@ func (e *Engine) verifyFunc(key string, against *FuncContract, prefix string) (r
 	if x.flags["locks"] {
 		x.heapBase(heldKey, heldSort)
 	}
+	for f := range x.flags {
+		if strings.HasPrefix(f, "only_") {
+			x.only = append(x.only, strings.TrimPrefix(f, "only_"))
+		}
+	}
+	sort.Strings(x.only)
 	defer func() {
 		if r := recover(); r != nil {
 			if u, ok := r.(unsupported); ok {
@@ -186,6 +192,17 @@ func (x *Exec) frameCheck(fc *FuncContract, env *Env, st *State, reach Term) {
 				whole[k] = true
 			}
 		case *CSel:
+			if q, ok := t.X.(*CSel); ok {
+				if pid, ok := q.X.(*CIdent); ok {
+					if pk := x.eng.importedPkg(env.pkg, pid.Name); pk != nil {
+						if si, fi := x.eng.lookupTypeField(x, pk, q.Name, t.Name); si != nil {
+							k, _ := x.fieldKeyOrGhost(si, fi, t.Name)
+							whole[k] = true
+							continue
+						}
+					}
+				}
+			}
 			if id, ok := t.X.(*CIdent); ok {
 				if _, isVar := env.vars[id.Name]; !isVar {
 					if si, fi := x.eng.lookupTypeField(x, env.pkg, id.Name, t.Name); si != nil {
